@@ -58,6 +58,14 @@ def check(rep, an, tier):
                     rep.check("R-TYPESTATE", "a foreign domain triggers an equalisation", bool(eqs), where=res.fn.loc(),
                               construct=f"equalize_domains in {meth}", entry=entry, config=res.config,
                               msg="a signal supplied on its own domain is integrated without equalising it with the filters")
+                for tv in res.events("abs_tolerance"):
+                    if tv.d.get("dimensioned") and tv.fn.cls:
+                        rep.violated("R-TYPESTATE", "a foreign domain triggers an equalisation", where=tv.loc, construct=tv.text(), entry=entry,
+                                     config=res.config,
+                                     msg="whether the supplied domain is 'the same' as the filter domain is decided with an absolute tolerance on "
+                                         "domain coordinates: for domains in small units (metres) different grids are treated as identical and the "
+                                         "signal is integrated on the wrong grid")
+                R.rule_dtype_casts(rep, res, entry)
                 caps = res.events("cap_call")
                 rep.check("R-TYPESTATE", "the integration is reached", bool(caps), where=res.fn.loc(), construct=f"calculate_capture in {meth}",
                           entry=entry, config=res.config)
@@ -106,3 +114,4 @@ def interpolation(rep, an):
         terms = {repr(ev.d["args"][0].term) for ev in calls if ev.d["args"]}
         rep.check("R-FLOW", "all interpolators evaluated on the same new domain", None if not calls else len(terms) == 1, where=res.fn.loc(),
                   construct="interpolator(new_domain)", entry=entry, config=res.config)
+        R.rule_dtype_casts(rep, res, entry)
